@@ -442,3 +442,36 @@ mod tests {
         assert!(counts.record_data_frame(0).is_err());
     }
 }
+
+#[cfg(feature = "verif-hooks")]
+impl Counts {
+    /// Read-only dump of every counter (verification hook).
+    pub(super) fn verif_dump(&self, out: &mut Vec<(&'static str, i64)>) {
+        fn cap(v: usize) -> i64 {
+            if v > i64::MAX as usize {
+                -1
+            } else {
+                v as i64
+            }
+        }
+        out.push(("max_send_streams", cap(self.max_send_streams)));
+        out.push(("num_send_streams", cap(self.num_send_streams)));
+        out.push(("max_recv_streams", cap(self.max_recv_streams)));
+        out.push(("num_recv_streams", cap(self.num_recv_streams)));
+        out.push(("max_local_reset_streams", cap(self.max_local_reset_streams)));
+        out.push(("num_local_reset_streams", cap(self.num_local_reset_streams)));
+        out.push(("max_remote_reset_streams", cap(self.max_remote_reset_streams)));
+        out.push(("num_remote_reset_streams", cap(self.num_remote_reset_streams)));
+        out.push((
+            "max_local_error_reset_streams",
+            self.max_local_error_reset_streams.map(cap).unwrap_or(-1),
+        ));
+        out.push((
+            "num_local_error_reset_streams",
+            cap(self.num_local_error_reset_streams),
+        ));
+        out.push(("data_frame_budget_available", cap(self.data_frame_budget.available)));
+        out.push(("data_frame_budget_max", cap(self.data_frame_budget.max)));
+        out.push(("num_recv_empty_data_frames", cap(self.num_recv_empty_data_frames)));
+    }
+}
